@@ -18,8 +18,14 @@ func (o Ops) opaque(op string, w int, hi uint64, args ...*Int) *Lin {
 		key += a.Lin.Key()
 	}
 	key += ")"
-	return LinAtom(w, o.In.Atom(key, w, hi))
+	var from []*Lin
+	for _, a := range args {
+		from = append(from, a.Lin)
+	}
+	return LinAtom(w, o.In.Derived(key, w, hi, from...))
 }
+
+func itoa(i int) string { return fmt.Sprintf("%d", i) }
 
 func topBits(w int) []Bit {
 	b := make([]Bit, w)
@@ -522,7 +528,11 @@ func (o Ops) RefineCmp(op string, x, y *Int, outcome bool, signed bool) *Int {
 }
 
 // Join is the least upper bound used at control-flow merges.
-func (o Ops) Join(a, b *Int) *Int {
+func (o Ops) Join(a, b *Int) *Int { return o.JoinGated(a, b, "") }
+
+// JoinGated is Join with the key of the controlling branch condition recorded in
+// the merge atom. Operands keep their order (a from the earlier predecessor).
+func (o Ops) JoinGated(a, b *Int, gate string) *Int {
 	if a.Lin.Key() == b.Lin.Key() && a.W == b.W {
 		r := a.clone()
 		if b.Lo < r.Lo {
@@ -550,6 +560,8 @@ func (o Ops) Join(a, b *Int) *Int {
 	}
 	// a merge of two different computations is a new unknown: two separate merges of
 	// the same pair may pick differently, so the atom must not be hash-consed.
-	lin := LinAtom(w, o.In.Fresh("join", w, hi))
+	o.In.fresh++
+	key := "join#" + itoa(o.In.fresh) + "[" + gate + "](" + a.Lin.Key() + "|" + b.Lin.Key() + ")"
+	lin := LinAtom(w, o.In.Derived(key, w, hi, a.Lin, b.Lin))
 	return o.mk(w, a.Signed, bv, lo, hi, lin)
 }
